@@ -89,6 +89,8 @@ def rand_style(rng, fmt):
         st["prefix"] = rng.choice(["a", "atom", "x", "rss", "A"])
     if fmt == "rss10" and rng.random() < 0.3:
         st["dcprefix"] = rng.choice(["d", "dublin", "DC"])
+    if fmt == "rss10" and rng.random() < 0.3:
+        st["rdfprefix"] = rng.choice(["r", "syntax", "RDF", "rdfns"])
     return st or None
 
 
